@@ -81,7 +81,7 @@ def gen_lists(rng, tier):
            ["x", "y", None, "z"], [-1, 1], ["-1", "1"], ["1a", "a1"], ["é", "É"], ["ß", "SS"], ["ǅx", "ǆx"], ["ab", "a b", "aB"], ["A_B", "a b"], ["a b", "A_B"],
            ["a", "b", "c"], [3, 2, 1], ["b", "a"], ["B", "a"], ["x", "X y"], ["it's", 'say "hi"'], ["\\", "/"], ['\\"'], ["a\\"], ["a\nb"], ["µm", "Μm"],
            ["VALUE_NEGATIVE_1", "x"], [-1, -2, 0], ["none", "None "], ["a", "b", None, None]]
-    n = 120 if tier == "quick" else 2000
+    n = 120 if tier == "quick" else 1200
     for _ in range(n):
         r = rng.random()
         k = rng.randint(1, 5)
@@ -369,10 +369,13 @@ def stage_gen(run, tier, lists):
                 probes.append(p)
         cases.append({"i": idx, "kind": "const", "const": cv, "literal": False, "required": True, "probes": probes})
         idx += 1
-    # the optional-const template defect (const_optional_syntax) is looked at on two fixed cases
-    opt_consts = [{"i": idx, "kind": "const", "const": True, "literal": False, "required": False, "probes": [True, False]},
-                  {"i": idx + 1, "kind": "const", "const": "a", "literal": False, "required": False, "probes": ["a", "b"]}]
-    idx += 2
+    # optional const properties: the check gains `and not isinstance(x, Unset)` (finding const_optional_syntax, fixed upstream in bc73e78:
+    # a missing space made `!= Trueand` a SyntaxError); same probes as the required variant, the model is the same function
+    opt_consts = [{"i": idx, "kind": "const", "const": True, "literal": False, "required": False, "probes": [True, False, 1, "True", None]},
+                  {"i": idx + 1, "kind": "const", "const": "a", "literal": False, "required": False, "probes": ["a", "b", "A", 0]},
+                  {"i": idx + 2, "kind": "const", "const": 5, "literal": False, "required": False, "probes": [5, 6, "5", 5.0]},
+                  {"i": idx + 3, "kind": "const", "const": 1.5, "literal": False, "required": False, "probes": [1.5, 1, "1.5"]}]
+    idx += 4
     groups = []
     for literal in (False, True):
         cs = [c for c in cases if c["literal"] == literal]
@@ -475,9 +478,9 @@ def stage_gen(run, tier, lists):
                     fails.append((c, "crash", info.get("exc") or str(info.get("fatal"))[:300]))
                     continue
                 broken = "import_error" in res or "runner_error" in res
-                if not c["required"]:
-                    if broken:
-                        fails.append((c, "const-optional", res.get("import_error") or res.get("runner_error")))
+                if not c["required"] and broken:
+                    # the optional variant of the const check (`... and not isinstance(x, Unset)`) must compile like the required one
+                    fails.append((c, "const-optional", res.get("import_error") or res.get("runner_error")))
                     continue
                 # a brace in a string constant lands in an f-string replacement field: whether the module still compiles depends on
                 # Python's expression grammar, which the model does not have -> outside the correspondence (the oracle still runs)
